@@ -187,7 +187,7 @@ func c06Pure(exprs []string) {
 		vrtAssert(vrtEventCount("sharedwrite") == 0, "querying a result wrote to the document or the compiled expression")
 	}
 	// a second document, then the first again
-	d2 := map[string]any{"a": []any{json.Number("3"), json.Number("1"), nil, json.Number("2")}, "b": map[string]any{"k": json.Number("9")}, "c": []any{map[string]any{"k": "z"}, map[string]any{"k": "y"}}, "d": []any{[]any{"k", json.Number("1")}}}
+	d2 := map[string]any{"a": []any{json.Number("3"), json.Number("1"), nil, json.Number("2")}, "b": map[string]any{"k": json.Number("9"), "only_in_d2": json.Number("7")}, "c": []any{map[string]any{"k": "z"}, map[string]any{"k": "y"}}, "d": []any{[]any{"k", json.Number("1")}}}
 	vrtMonitor(true)
 	_, _ = e.Search(d2)
 	r3, err3 := e.Search(d1)
